@@ -38,7 +38,9 @@ var NumTexts = []string{"0", "1", "-1", "2", "3", "4", "5", "10", "1.5", "-2.5",
 	// distinct numbers that a binary64 shortcut would merge: neighbours above
 	// 2^53, a difference in the 20th digit, magnitudes beyond 1e308 and below
 	// 1e-308 (all exact in decimal128)
-	"9007199254740992", "9007199254740994", "0.10000000000000000001", "0.10000000000000000002", "1e400", "2e400", "-1e400", "1e-400", "2e-400", "1e-320", "1.0001e-320"}
+	"9007199254740992", "9007199254740994", "0.10000000000000000001", "0.10000000000000000002", "1e400", "2e400", "-1e400", "1e-400", "2e-400", "1e-320", "1.0001e-320",
+	// long texts outside the decimal128 range (not numbers to the library: whatever it does with them, it must do every time)
+	"12345678901234567890e6200", "1.0000000000000000000e+7000", "-99999999999999999999e6144", "0.00000000000000000001e-6200"}
 
 // CloseNums: groups of distinct numbers whose members a binary64 conversion
 // maps to the same value, in descending order within each group.
